@@ -31,10 +31,14 @@ class Extract:
         self.loops = []          # in execution order: dict(head, back=[(state, events since head)], H)
         self.first_md5_state = None
         self.md5s = []
+        self.entry = {}          # loop-head symbol -> its value on loop entry
 
         def on_loop(frame, head, H, res, havoc, lid):
             if eng.mute or frame.key != fn["key"]:
                 return
+            for (cell, kp), kind in havoc.items():
+                if kind == "int":
+                    self.entry[eng.hsym(lid, cell, kp)] = eng._entry.get((lid, (cell, kp)))
             self.loops.append({"head": head, "lid": lid, "done": H.ghost.get("loops_done", ()), "H": H, "back": [(b, b.events()[H.ntrace:]) for b in res["back"]], "exits": res["exit"]})
 
         def on_md5(st, site, did, d):
@@ -52,7 +56,8 @@ class Extract:
                 xs = [e for e in evs if e[0] == "xor"]
                 rn = [e for e in evs if e[0] == "range_next"]
                 if xs and len(xs) == 1 and rn:
-                    out.append({"order": i, "head": lp["head"], "lid": lp["lid"], "done": lp["done"], "state": b, "xor": xs[0], "j": rn[-1][2], "H": lp["H"]})
+                    out.append({"order": i, "head": lp["head"], "lid": lp["lid"], "done": lp["done"], "state": b, "xor": xs[0], "j": rn[-1][2], "H": lp["H"],
+                                "range": (rn[-1][4], rn[-1][5]) if len(rn[-1]) > 5 else None})
         return out
 
     def chain_loops(self):
@@ -63,7 +68,8 @@ class Extract:
                 ms = [e for e in evs if e[0] == "md5"]
                 rn = [e for e in evs if e[0] == "range_next"]
                 if ms and rn:
-                    out.append({"order": i, "head": lp["head"], "lid": lp["lid"], "done": lp["done"], "state": b, "md5": ms[-1], "item": rn[0][2], "back": rn[0][1], "H": lp["H"]})
+                    out.append({"order": i, "head": lp["head"], "lid": lp["lid"], "done": lp["done"], "state": b, "md5": ms[-1], "item": rn[0][2], "back": rn[0][1], "H": lp["H"],
+                                "range": (rn[0][4], rn[0][5]) if len(rn[0]) > 5 else None})
         return out
 
 
@@ -123,3 +129,43 @@ def plaintext_facts(eng, X, dests):
             if not eng.ent(st, c_eq(r, Lin.const(0))) or not eng.ent(st, c_eq(v.len, pre + p)) or not eng.ent(st, c_le(Lin.const(16), v.len)):
                 f["problems"].append("plaintext length %r is not proven the positive multiple of 16 reached by the padding" % (v.len,))
     return out
+
+
+def entry_value(X, lin):
+    """value of a loop-carried expression on loop entry (substitute the head symbols by their entry values)"""
+    out = Lin.const(lin.c)
+    for sym, k in lin.t.items():
+        e = X.entry.get(sym)
+        if e is None:
+            out = out + Lin.sym(sym).scale(k)
+        else:
+            out = out + e.scale(k)
+    return out
+
+
+def coverage_facts(eng, X, chain, xs):
+    """problems with the ranges walked by the chain loops (must be blocks 1..n-1, n = |buffer|/16) and by the
+    XOR loops (must be j = 0..16)"""
+    probs = []
+    for c in chain:
+        st = c["state"]
+        rg = c.get("range")
+        buf = st.cells.get(c["buf"]) if c.get("buf") is not None else None
+        if rg is None or not isinstance(buf, VVec):
+            probs.append("chain loop range not recognised")
+            continue
+        start, end = rg
+        s0, e0 = entry_value(X, start), entry_value(X, end)
+        if not eng.ent(st, c_eq(s0, Lin.const(1))):
+            probs.append("chain does not start at block 1 (entry %r)" % (s0,))
+        if not eng.ent(st, c_eq(e0.scale(16), buf.len)):
+            probs.append("chain does not reach the last block: it stops at block %r of a %r-octet buffer" % (e0, buf.len))
+    for x in xs:
+        rg = x.get("range")
+        if rg is None:
+            probs.append("XOR loop range not recognised")
+            continue
+        s0, e0 = entry_value(X, rg[0]), entry_value(X, rg[1])
+        if not (s0 == Lin.const(0) and eng.ent(x["state"], c_eq(e0, Lin.const(16)))):
+            probs.append("XOR loop covers %r..%r, not 0..16" % (s0, e0))
+    return sorted(set(probs))
